@@ -48,6 +48,9 @@ def targets_of(model, header):
             t.append((us + '_new', 'function', c))
         for k in range(c['methods']):
             t.append(('%s_method%d' % (us, k), 'function', c))
+        if c.get('async'):
+            t.append((us + '_fetch_async', 'function', ('async', c)))
+            t.append((us + '_fetch', 'function', ('async-sibling', c)))
     for f in model['ifaces']:
         nm = f['name']
         t.append((nm, 'interface', f))
@@ -120,7 +123,15 @@ def gen_blocks(rng, targets, model):
                 if rng.random() < 0.6:
                     b[g] = 'foo_%s_%d' % (a.replace('-', '_'), bid)
                     anns.append('(%s %s)' % (a, b[g]))
-        if kind == 'function':
+        if kind == 'function' and isinstance(extra, tuple) and extra[0] == 'async':
+            # explicit counterparts that differ from what the name heuristic would guess (the sibling "fetch" exists)
+            if rng.random() < 0.7:
+                b['glib:finish-func'] = 'fetch_finish'
+                b['glib:sync-func'] = 'fetch_blocking'
+                anns.append('(finish-func fetch_finish) (sync-func fetch_blocking)')
+        elif kind == 'function' and isinstance(extra, tuple):
+            pass
+        elif kind == 'function':
             for a, g in (('finish-func', 'glib:finish-func'), ('sync-func', 'glib:sync-func'), ('async-func', 'glib:async-func')):
                 if rng.random() < 0.12:
                     b[g] = 'other_fn_%d' % bid
